@@ -203,16 +203,16 @@ impl<K: Key> SetB for BTreeSet<K> {
         true
     }
 }
-impl SetB for Vec<u8> {
+impl<K: Key> SetB for Vec<K> {
     fn bname() -> String {
-        "Vec<u8>".into()
+        format!("Vec<{}>", K::kname())
     }
     fn all(p: P) -> Vec<Self> {
         let d: Vec<u8> = (0..p.e).collect();
-        seqs_upto(&d, p.e as usize)
+        seqs_upto(&d, p.e as usize).into_iter().map(|s| s.into_iter().map(K::from_u8).collect()).collect()
     }
     fn elems(&self) -> Vec<u8> {
-        self.clone()
+        self.iter().map(|k| k.to_u8()).collect()
     }
     fn brackets() -> (&'static str, &'static str) {
         ("[", "]")
